@@ -46,7 +46,7 @@ func (registry *AddressesRegistry) Copy() application.AddressesManager {
 	registryCopy := &AddressesRegistry{}
 	registryCopy.humansManager = registry.humansManager
 	registryCopy.registeredAddresses = copyAddressesMap(registry.registeredAddresses)
-	registryCopy.removedAddresses = registry.removedAddresses
+	registryCopy.removedAddresses = copyAddresses(registry.removedAddresses)
 	registryCopy.logger = registry.logger
 	return registryCopy
 }
